@@ -350,6 +350,7 @@ func (b *Backoffer) UpdateUsingForked(forked *Backoffer) {
 			b.errorsNum = forked.errorsNum
 			b.backoffSleepMS = forked.backoffSleepMS
 			b.backoffTimes = forked.backoffTimes
+			b.configs = forked.configs
 			break
 		}
 	}
